@@ -83,6 +83,11 @@ type wpCloud struct {
 	insts   map[int]*wpInst
 	next    int
 	outcome int // for the next Create: 0 ok, 1 quota error, 2 other error
+	// Instances(): the answer is the cloud as it is when the request arrives; a gated request is answered later
+	gate     bool
+	listArr  chan string
+	listGate chan struct{}
+	lastS    string
 }
 
 func (c *wpCloud) Create(it arvados.InstanceType, _ cloud.ImageID, tags cloud.InstanceTags, _ cloud.InitCommand, _ ssh.PublicKey) (cloud.Instance, error) {
@@ -100,7 +105,19 @@ func (c *wpCloud) Create(it arvados.InstanceType, _ cloud.ImageID, tags cloud.In
 	c.next++
 	return inst, nil
 }
-func (c *wpCloud) Instances(cloud.InstanceTags) ([]cloud.Instance, error) { return nil, errors.New("unused") }
+func (c *wpCloud) Instances(cloud.InstanceTags) ([]cloud.Instance, error) {
+	l, s := c.h.listing()
+	c.mtx.Lock()
+	gate := c.gate
+	c.gate = false
+	c.lastS = s
+	c.mtx.Unlock()
+	if gate {
+		c.listArr <- s
+		<-c.listGate
+	}
+	return l, nil
+}
 func (c *wpCloud) Stop()                                                  {}
 
 type wpVM struct {
@@ -217,6 +234,7 @@ type wpH struct {
 	desSeen map[int]int  // Destroy calls per instance at the previous observation
 	desBase map[int]int  // ... when the instance (re)appeared in Instances()
 	present map[int]bool
+	syncDone chan error // != nil: a getInstancesAndSync call is waiting for the cloud's answer
 }
 
 func (h *wpH) vm(n int) *wpVM {
@@ -542,14 +560,79 @@ func (s *wpSnap) SetTags(t cloud.InstanceTags) error {
 	return s.wpInst.SetTags(t)
 }
 
+// The instance-list sync goes through Pool.getInstancesAndSync (threshold, cloud call, sync), as runSync does.
 func (h *wpH) doSync() {
-	l, s := h.listing()
-	h.pool.sync(time.Now(), l)
+	if h.syncDone != nil {
+		h.doSyncEnd()
+		return
+	}
+	time.Sleep(time.Microsecond)
+	if err := h.pool.getInstancesAndSync(); err != nil {
+		h.t.Fatalf("getInstancesAndSync: %v", err)
+	}
+	h.cloudS.mtx.Lock()
+	s := h.cloudS.lastS
+	h.cloudS.mtx.Unlock()
 	h.emit("OSync "+s, 0)
+}
+
+// ... split: the list request reaches the cloud (the threshold has been taken, the answer is fixed) ...
+func (h *wpH) doSyncBegin() {
+	if h.syncDone != nil || h.stuck != 0 {
+		return
+	}
+	time.Sleep(time.Microsecond)
+	h.cloudS.mtx.Lock()
+	h.cloudS.gate = true
+	h.cloudS.mtx.Unlock()
+	done := make(chan error, 1)
+	pool := h.pool
+	go func() { done <- pool.getInstancesAndSync() }()
+	var s string
+	if !h.wait(8, "list request", func() bool {
+		select {
+		case s = <-h.cloudS.listArr:
+			return true
+		default:
+			return false
+		}
+	}) {
+		return
+	}
+	time.Sleep(time.Microsecond)
+	h.syncDone = done
+	h.tags["directed=sync-split"]++
+	h.emit("OSyncBegin "+s, 0)
+}
+
+// ... and the answer arrives: Pool.sync(threshold, answer)
+func (h *wpH) doSyncEnd() {
+	if h.syncDone == nil || h.stuck != 0 {
+		return
+	}
+	h.cloudS.listGate <- struct{}{}
+	var err error
+	ok := h.wait(8, "sync done", func() bool {
+		select {
+		case err = <-h.syncDone:
+			return true
+		default:
+			return false
+		}
+	})
+	h.syncDone = nil
+	if !ok {
+		return
+	}
+	if err != nil {
+		h.t.Fatalf("getInstancesAndSync: %v", err)
+	}
+	h.emit("OSyncEnd", 0)
 }
 
 // drain everything asynchronous that belongs to the current pool (before a restart / at the end)
 func (h *wpH) finishPending() {
+	h.doSyncEnd()
 	for n := range h.pending {
 		h.opProbeEnd(n)
 	}
@@ -625,7 +708,7 @@ func (h *wpH) pickUUID() string {
 }
 
 func wpScenario(t *testing.T, r *vRand, mode string) (string, []string, map[string]int, bool) {
-	h := &wpH{t: t, r: r, cloudS: &wpCloud{insts: map[int]*wpInst{}, next: 1}, vms: map[int]*wpVM{},
+	h := &wpH{t: t, r: r, cloudS: &wpCloud{insts: map[int]*wpInst{}, next: 1, listArr: make(chan string, 1), listGate: make(chan struct{})}, vms: map[int]*wpVM{},
 		gated: map[string]int{}, pending: map[int]bool{}, started: map[string]int{}, killing: map[string]bool{}, tags: map[string]int{}, nextU: 1,
 		allInsts: map[int]*wpInst{}, desSeen: map[int]int{}, desBase: map[int]int{}, present: map[int]bool{}, disc: map[int]bool{}}
 	h.cloudS.h = h
@@ -729,6 +812,39 @@ func wpScenario(t *testing.T, r *vRand, mode string) (string, []string, map[stri
 		}
 		h.emit(fmt.Sprintf("OStart %s %s", gN(int64(it)), gN(wpU(u))), ret)
 		return ok && good
+	}
+	// Pool.Create and the completion of the cloud call; boot: bring the new instance up right away
+	doCreate := func(it, oc int, boot bool) int {
+		h.cloudS.mtx.Lock()
+		h.cloudS.outcome = oc
+		newid := h.cloudS.next
+		h.cloudS.mtx.Unlock()
+		ret := h.pool.Create(h.its[it])
+		good = h.wait(1, "create", func() bool {
+			h.pool.mtx.Lock()
+			defer h.pool.mtx.Unlock()
+			return len(h.pool.creating) == 0
+		})
+		rv := int64(0)
+		if ret {
+			rv = 1
+		}
+		h.emit(fmt.Sprintf("OCreate %s %s %s", gN(int64(it)), gN(int64(newid)), gN(int64(oc))), rv)
+		if !(ret && oc == 0) {
+			return 0
+		}
+		if boot {
+			vm := h.vm(newid)
+			vm.mtx.Lock()
+			vm.bootOK = true
+			vm.mtx.Unlock()
+			if w := h.worker(newid); w != nil {
+				rs := h.resp(vm, false)
+				w.ProbeAndUpdate()
+				h.emit(fmt.Sprintf("OProbe %s %s", gN(int64(newid)), rs), 0)
+			}
+		}
+		return newid
 	}
 	doKill := func(u string) {
 		if _, g := h.gated[u]; g && shortTerm {
@@ -866,40 +982,34 @@ func wpScenario(t *testing.T, r *vRand, mode string) (string, []string, map[stri
 		x := r.Intn(100)
 		switch {
 		case x < 8:
-			h.doSync()
+			if h.syncDone == nil && r.Chance(1, 3) {
+				h.doSyncBegin() // other operations happen while the list request is outstanding
+				if h.syncDone != nil && r.Chance(1, 3) {
+					// directed: an instance is created, boots and gets a container while the list request is
+					// outstanding; then the (older) answer arrives
+					h.tags["directed=slow-list"]++
+					it := r.Intn(nit)
+					if doCreate(it, 0, true) != 0 && good && h.stuck == 0 {
+						u := test.ContainerUUID(h.nextU)
+						h.nextU++
+						if doStart(it, u) && r.Chance(2, 3) {
+							h.opLands(u, true)
+						}
+					}
+					if good && h.stuck == 0 {
+						h.doSyncEnd()
+					}
+				}
+			} else {
+				h.doSync() // ends the outstanding request, if any
+			}
 		case x < 16:
 			it := r.Intn(nit)
 			oc := 0
 			if r.Chance(1, 8) {
 				oc = 1 + r.Intn(2)
 			}
-			h.cloudS.mtx.Lock()
-			h.cloudS.outcome = oc
-			newid := h.cloudS.next
-			h.cloudS.mtx.Unlock()
-			ret := h.pool.Create(h.its[it])
-			good = h.wait(1, "create", func() bool {
-				h.pool.mtx.Lock()
-				defer h.pool.mtx.Unlock()
-				return len(h.pool.creating) == 0
-			})
-			rv := int64(0)
-			if ret {
-				rv = 1
-			}
-			h.emit(fmt.Sprintf("OCreate %s %s %s", gN(int64(it)), gN(int64(newid)), gN(int64(oc))), rv)
-			if ret && oc == 0 && r.Chance(2, 3) {
-				// bring the new instance up right away so that later operations find idle workers
-				vm := h.vm(newid)
-				vm.mtx.Lock()
-				vm.bootOK = true
-				vm.mtx.Unlock()
-				if w := h.worker(newid); w != nil {
-					rs := h.resp(vm, false)
-					w.ProbeAndUpdate()
-					h.emit(fmt.Sprintf("OProbe %s %s", gN(int64(newid)), rs), 0)
-				}
-			}
+			doCreate(it, oc, r.Chance(2, 3))
 		case x < 36:
 			if len(known) == 0 {
 				continue
